@@ -80,6 +80,9 @@ func scenarioConcurrent() int {
 	total := *flagCases
 	if total == 0 {
 		total = ev.Pick(2500, 60000)
+		if prop == "C03" {
+			total = ev.Pick(8000, 160000)
+		}
 	}
 	g := sip.NewGen(shardSeed(run.Seed))
 	judged, relayedOK, retries := 0, 0, 0
@@ -239,12 +242,15 @@ func concurrentProcess(run *ev.Run, g *sip.Gen, prop string, gmp, pi, quota int,
 			wire.InsertBefore(msg, "content-length", sip.Header{Name: fmt.Sprintf("X-%s-%d", id, k), Value: id + "-" + randLetters(r, r.Intn(120))})
 		}
 		var size int
-		switch r.Intn(8) {
-		case 0:
+		switch sz := r.Intn(8); {
+		case prop == "C03" && sz > 2:
+			// (for the routing projection many short messages interleave more lookups than few long ones)
+			size = r.Intn(300)
+		case sz == 0:
 			size = 0
-		case 1, 2:
+		case sz == 1 || sz == 2:
 			size = 1 + r.Intn(400)
-		case 3, 4:
+		case sz == 3 || sz == 4:
 			size = 1500 + r.Intn(7000)
 		default:
 			size = 12000 + r.Intn(40000)
